@@ -84,6 +84,22 @@ Definition object_entries (j : option json) : list (list (bytes * json)) :=
   | _ => []
   end.
 
+(* validateObjectEntries (commit a4ab443): every element is an object *)
+Definition all_objects (l : list json) : bool :=
+  forallb (fun e => match e with JObj _ => true | _ => false end) l.
+
+(* validateOptionalObjectArray: absent or null passes; otherwise an array of objects (may be empty) *)
+Definition optional_object_array (j : option json) : bool :=
+  match j with
+  | None | Some JNull => true
+  | Some (JArr l) => all_objects l
+  | Some _ => false
+  end.
+
+(* the raw elements of an array-valued entry *)
+Definition array_elems (j : option json) : list json :=
+  match j with Some (JArr l) => l | _ => [] end.
+
 Definition entry_id (m : list (bytes * json)) : bytes := str_entry "id" m.
 Definition entry_type (m : list (bytes * json)) : bytes := str_entry "type" m.
 Definition key_purposes (m : list (bytes * json)) : list bytes := string_array (member "purposes" m).
@@ -291,6 +307,8 @@ Definition validate_patch_out (p : json) : vout :=
       match v with
       | JObj dm =>
         vbool (forallb (fun kv => mem_bytes (fst kv) replace_allowed_members) dm
+               && optional_object_array (member "publicKeys" dm)
+               && optional_object_array (member "services" dm)
                && public_keys_ok (object_entries (member "publicKeys" dm))
                && services_ok (object_entries (member "services" dm)))
       | _ => VReject
@@ -298,11 +316,11 @@ Definition validate_patch_out (p : json) : vout :=
     else if bytes_eqb a (B "ietf-json-patch") then
       if required_array v then jsonpatch_paths_out v else VReject
     else if bytes_eqb a (B "add-public-keys") then
-      vbool (required_array v && public_keys_ok (object_entries (Some v)))
+      vbool (required_array v && all_objects (array_elems (Some v)) && public_keys_ok (object_entries (Some v)))
     else if bytes_eqb a (B "remove-public-keys") then
       vbool (required_array v && forallb id_ok (string_array (Some v)))
     else if bytes_eqb a (B "add-services") then
-      vbool (required_array v && services_ok (object_entries (Some v)))
+      vbool (required_array v && all_objects (array_elems (Some v)) && services_ok (object_entries (Some v)))
     else if bytes_eqb a (B "remove-services") then
       vbool (required_array v && forallb id_ok (string_array (Some v)))
     else (* add-also-known-as, remove-also-known-as *)
@@ -356,6 +374,38 @@ Definition patch_services (p : json) : list (list (bytes * json)) :=
       match v with JObj dm => object_entries (member "services" dm) | _ => [] end
     else []
   | _, _ => []
+  end.
+
+(* the RAW elements of the key / service arrays a patch carries (objects or not) *)
+Definition patch_key_elems (p : json) : list json :=
+  match patch_action p, patch_value p with
+  | Some a, Some v =>
+    if bytes_eqb a (B "add-public-keys") then array_elems (Some v)
+    else if bytes_eqb a (B "replace") then
+      match v with JObj dm => array_elems (member "publicKeys" dm) | _ => [] end
+    else []
+  | _, _ => []
+  end.
+
+Definition patch_service_elems (p : json) : list json :=
+  match patch_action p, patch_value p with
+  | Some a, Some v =>
+    if bytes_eqb a (B "add-services") then array_elems (Some v)
+    else if bytes_eqb a (B "replace") then
+      match v with JObj dm => array_elems (member "services" dm) | _ => [] end
+    else []
+  | _, _ => []
+  end.
+
+(* a replace document section: absent/null, or an array *)
+Definition patch_sections_typed (p : json) : bool :=
+  match patch_action p, patch_value p with
+  | Some a, Some (JObj dm) =>
+    if bytes_eqb a (B "replace") then
+      (match member "publicKeys" dm with None | Some JNull | Some (JArr _) => true | _ => false end)
+      && (match member "services" dm with None | Some JNull | Some (JArr _) => true | _ => false end)
+    else true
+  | _, _ => true
   end.
 
 Definition patch_jsonpatch (p : json) : option json :=
